@@ -503,5 +503,6 @@ class C04Bounded(Bounded):
                     continue
                 if got2 != one[a_] + one[b_]:
                     failures.append({"text": f"{chain} on the list {[a_, b_]!r}: values {got2} are not the values of {a_!r} followed by the values of {b_!r} ({one[a_] + one[b_]})", "input": [chain, [a_, b_]]})
-        return {"evaluations": n, "distinct_nontrivial": nontriv, "failures": list(failures)[:40], "failure_counts": {str(k): v for k, v in _F.seen.items()}, "bound": f"payloads of <= {maxlen} symbols over {alphabet!r}, 10 modifier chains, prefixes 0..5 x suffixes (0,1,2,5) of random bytes; 7 chains x 20 two-value lists",
+        return {"evaluations": n, "distinct_nontrivial": nontriv, "failures": sorted(failures, key=lambda f: f["text"].startswith("KNOWN"))[:40],       # failures that are not on the recorded list come first: they must not be cut off
+                 "failure_counts": {str(k): v for k, v in _F.seen.items()}, "bound": f"payloads of <= {maxlen} symbols over {alphabet!r}, 10 modifier chains, prefixes 0..5 x suffixes (0,1,2,5) of random bytes; 7 chains x 20 two-value lists",
                 "rule": "every (payload, chain) pair is distinct; non-trivial = not rejected by the library", "samples": samples, "exhaustive": True}
